@@ -56,31 +56,46 @@ type FeederCfg struct {
 	StartBaseBlock uint64
 	Interval       uint64
 	EndBlock       uint64
+	// ResumeAfter > 0 (needs EndBlock > 0): a second feeder for the same token starts
+	// ResumeAfter blocks after EndBlock, continuing the round numbering (it gets a feeder id
+	// different from the token id).
+	ResumeAfter    uint64
+	ResumeInterval uint64
+}
+
+// FeederInfo is one entry of the oracle's token feeder list as built into the genesis.
+type FeederInfo struct {
+	ID             uint64
+	Token          uint64
+	StartRoundID   uint64
+	StartBaseBlock uint64
+	Interval       uint64
+	EndBlock       uint64
 }
 
 // Config is the generated part of a world. Everything else is derived from it.
 type Config struct {
-	Seed                uint64
-	ChainID             string
-	NumOperators        int     // 2..6, all registered at genesis
-	NumValidators       int     // first NumValidators operators are opted in with a key and form the genesis validator set
-	SelfStake           []int64 // per operator: whole tokens of asset 0 deposited by and self-delegated to the operator (genesis)
-	NumStakers          int     // extra EVM stakers (no genesis positions)
-	Assets              []AssetCfg
-	DogfoodAssets       []int // indexes into Assets counted for dogfood voting power
-	MaxValidators       uint32
-	EpochsUntilUnbonded uint32
-	MinSelfDelegation   int64
-	DogfoodEpoch        string // epoch identifier of the dogfood AVS
-	Commission          []string
-	Feeders             []FeederCfg
-	OracleMaxNonce      int32
-	ExtraEpochs         []epochstypes.EpochInfo
-	MintEpoch           string
-	MintReward          string
-	DistrEpoch          string
-	CommunityTax        string
-	StakerNative        string // native balance of each staker/operator account
+	Seed                 uint64
+	ChainID              string
+	NumOperators         int     // 2..6, all registered at genesis
+	NumValidators        int     // first NumValidators operators are opted in with a key and form the genesis validator set
+	SelfStake            []int64 // per operator: whole tokens of asset 0 deposited by and self-delegated to the operator (genesis)
+	NumStakers           int     // extra EVM stakers (no genesis positions)
+	Assets               []AssetCfg
+	DogfoodAssets        []int // indexes into Assets counted for dogfood voting power
+	MaxValidators        uint32
+	EpochsUntilUnbonded  uint32
+	MinSelfDelegation    int64
+	DogfoodEpoch         string // epoch identifier of the dogfood AVS
+	Commission           []string
+	Feeders              []FeederCfg
+	OracleMaxNonce       int32
+	ExtraEpochs          []epochstypes.EpochInfo
+	MintEpoch            string
+	MintReward           string
+	DistrEpoch           string
+	CommunityTax         string
+	StakerNative         string // native balance of each staker/operator account
 	GenesisUndelegations []delegationtypes.UndelegationRecord
 }
 
@@ -121,7 +136,8 @@ type World struct {
 	Stakers   []AccountKey
 	Other     AccountKey // an ordinary funded account without any role
 	AssetIDs  []string
-	AvsAddr   string // dogfood AVS address (lower-case hex string)
+	AvsAddr   string       // dogfood AVS address (lower-case hex string)
+	Feeders   []FeederInfo // active (generated) feeders, including resumed ones
 	Genesis   map[string]json.RawMessage
 }
 
@@ -297,6 +313,24 @@ func BuildWorld(cfg Config) (*World, error) {
 			TokenID: uint64(i + 1), RuleID: 1, StartRoundID: 2, StartBaseBlock: f.StartBaseBlock,
 			Interval: f.Interval, EndBlock: f.EndBlock,
 		})
+		if ok {
+			w.Feeders = append(w.Feeders, FeederInfo{ID: uint64(i + 1), Token: uint64(i + 1), StartRoundID: 2, StartBaseBlock: f.StartBaseBlock, Interval: f.Interval, EndBlock: f.EndBlock})
+		}
+	}
+	for i := range cfg.Assets {
+		f, ok := feederFor[i]
+		if !ok || f.ResumeAfter == 0 || f.EndBlock == 0 {
+			continue
+		}
+		iv := f.ResumeInterval
+		if iv == 0 {
+			iv = f.Interval
+		}
+		startRound := 2 + (f.EndBlock-f.StartBaseBlock)/f.Interval + 1
+		op.TokenFeeders = append(op.TokenFeeders, &oracletypes.TokenFeeder{
+			TokenID: uint64(i + 1), RuleID: 1, StartRoundID: startRound, StartBaseBlock: f.EndBlock + f.ResumeAfter, Interval: iv,
+		})
+		w.Feeders = append(w.Feeders, FeederInfo{ID: uint64(len(op.TokenFeeders) - 1), Token: uint64(i + 1), StartRoundID: startRound, StartBaseBlock: f.EndBlock + f.ResumeAfter, Interval: iv})
 	}
 	og := oracletypes.NewGenesisState(op)
 	for i, a := range cfg.Assets {
